@@ -84,7 +84,8 @@ def gen_spec(seed, index, tier):
                  qsel=[rng.randint(0, 26) for _ in range(rng.randint(1, 6))], extra_q=rng.choice([None, [1, 0, 0], [0, 1, 1], [0.13, 0.27, -0.31], [1.5, 0.5, 0], [0.7, -0.9, 0.2]]),
                  abandon=rng.randint(0, 4), fmt=rng.choice(["yaml", "hdf5"]), what=rng.choice(["qpoints", "band", "mesh"]),
                  through_gamma=rng.random() < 0.3, call=rng.choice(["dm_at_q", "freqs", "freqs_vecs", "gv_at_q", "dm_run"]),
-                 segments=rng.choice([1, 1, 2, 2, 3]), join=rng.choice(["gamma", "point", "none"]))
+                 segments=rng.choice([1, 1, 2, 2, 3]), join=rng.choice(["gamma", "point", "none"]),
+                 tr=rng.random() < 0.75, gc=rng.random() < 0.75)
         tasks.append(t)
     order = [rng.randint(0, 99) for _ in range(60)]
     variant = "sim" if rng.random() < 0.55 else "serial"
@@ -243,7 +244,8 @@ def task_band(ctx, tid, t):
 
 def task_mesh(ctx, tid, t):
     ph = ctx.ph
-    ph.run_mesh(ctx.mesh, is_mesh_symmetry=t["sym"], with_eigenvectors=t["eigvecs"], with_group_velocities=t["gv"], is_gamma_center=True)
+    ph.run_mesh(ctx.mesh, is_mesh_symmetry=t["sym"], with_eigenvectors=t["eigvecs"], with_group_velocities=t["gv"], is_gamma_center=t.get("gc", True),
+                is_time_reversal=t.get("tr", True))
     d = ph.get_mesh_dict()
     for i, q in enumerate(d["qpoints"]):
         ctx.report(tid, "mesh", q, freq=d["frequencies"][i], vecs=(d["eigenvectors"][i] if d["eigenvectors"] is not None else None),
@@ -253,7 +255,7 @@ def task_mesh(ctx, tid, t):
 
 def task_itermesh(ctx, tid, t):
     ph = ctx.ph
-    ph.init_mesh(ctx.mesh, is_mesh_symmetry=t["sym"], with_eigenvectors=t["eigvecs"], is_gamma_center=True, use_iter_mesh=True)
+    ph.init_mesh(ctx.mesh, is_mesh_symmetry=t["sym"], with_eigenvectors=t["eigvecs"], is_gamma_center=t.get("gc", True), is_time_reversal=t.get("tr", True), use_iter_mesh=True)
     m = ph.mesh
     qpts = np.array(m.qpoints)
     yield
@@ -272,7 +274,7 @@ def task_itermesh(ctx, tid, t):
 def task_meshiter(ctx, tid, t):
     """Stored (lazy) mesh used as an iterator: abandoned after k items, then iterated again in full."""
     ph = ctx.ph
-    ph.init_mesh(ctx.mesh, is_mesh_symmetry=t["sym"], with_eigenvectors=t["eigvecs"], is_gamma_center=True, use_iter_mesh=False)
+    ph.init_mesh(ctx.mesh, is_mesh_symmetry=t["sym"], with_eigenvectors=t["eigvecs"], is_gamma_center=t.get("gc", True), is_time_reversal=t.get("tr", True), use_iter_mesh=False)
     m = ph.mesh
     yield
     k = t["abandon"]
@@ -360,7 +362,8 @@ def task_write(ctx, tid, t):
         obj = ph.band_structure
         fn = os.path.join(d0, "band." + t["fmt"])
     else:
-        ph.run_mesh(ctx.mesh, is_mesh_symmetry=t["sym"], with_eigenvectors=t["eigvecs"], with_group_velocities=t["gv"], is_gamma_center=True)
+        ph.run_mesh(ctx.mesh, is_mesh_symmetry=t["sym"], with_eigenvectors=t["eigvecs"], with_group_velocities=t["gv"], is_gamma_center=t.get("gc", True),
+                    is_time_reversal=t.get("tr", True))
         d = ph.get_mesh_dict()
         freqs = np.array(d["frequencies"])
         gv = np.array(d["group_velocities"]) if d["group_velocities"] is not None else None
